@@ -1,0 +1,25 @@
+//go:build verif
+
+// Package verifhook provides named yield points for the verification harness.
+// With the build tag `verif` a harness-installed scheduler is called at each point;
+// without the tag Yield is an empty function.
+package verifhook
+
+import "sync/atomic"
+
+var hook atomic.Value // func(string)
+
+// Set installs (or with nil removes) the scheduler callback.
+func Set(f func(id string)) {
+	if f == nil {
+		f = func(string) {}
+	}
+	hook.Store(f)
+}
+
+// Yield calls the installed scheduler, if any.
+func Yield(id string) {
+	if h, ok := hook.Load().(func(string)); ok && h != nil {
+		h(id)
+	}
+}
